@@ -2,7 +2,7 @@
 import math
 
 from .. import gen
-from ..predprobe import gen_pred_case, call_pred, in01, alias_clause, scribble
+from ..predprobe import gen_pred_case, call_pred, in01, alias_clause, inplace_clause, scribble
 from ..rateprobe import exc_detail
 from ..util import KIND, EPS
 
@@ -70,6 +70,7 @@ def probe_pw(ctx, payload):
         ctx.violation("sum", "pw", payload, dict(sum=math.fsum(w), result=w), model, reg)
     ctx.frac("sum_minus_1/1e-12", abs(math.fsum(w) - 1) / 1e-12)
     alias_clause(ctx, "pw", payload, case, "predict_win", w, model, reg)
+    inplace_clause(ctx, "pw", payload, case, "predict_win", model, reg)
     # permutation
     perm, pp = payload["perm"], payload["pperm"]
     t2 = [[teams[i][j] for j in pj] for i, pj in zip(perm, pp)]
